@@ -91,9 +91,8 @@ Definition wf_op (o : op) : Prop :=
   match o with
   | ORead a n => a < two64 /\ n < two64
   | OWrite a d => a < two64 /\ lenN d < two64
-  | OCkpt => True
-  | OLoadTrunc _ => True
   | OLoadShape c u => c < two64 /\ u < two64
+  | _ => True
   end.
 
 (** refinement relation between a storage and a flat write log *)
@@ -103,27 +102,40 @@ Record Ref (cap unit : N) (st : storage) (l : flog) : Prop := {
   ref_unit : s_unit st = unit;
   ref_contents : forall a, contents st a = flat_get l a }.
 
-Lemma step_refines cap unit st l o : Ref cap unit st l -> wf_op o ->
-  proj (snd (step false st o)) = Some (snd (flat_step cap unit l o)) /\
-  Ref cap unit (fst (step false st o)) (fst (flat_step cap unit l o)).
+(** ... extended to the stream / array kept aside by OSave *)
+Definition XRef (cap unit : N) (x : xst) (y : fst_t) : Prop :=
+  Ref cap unit (fst x) (fst y) /\
+  match snd x, snd y with
+  | None, None => True
+  | Some s, Some l0 => exists st0, Ref cap unit st0 l0 /\ s = save st0
+  | _, _ => False
+  end.
+
+Lemma step_refines cap unit x y o : XRef cap unit x y -> wf_op o ->
+  proj (snd (step false x o)) = Some (snd (flat_step cap unit y o)) /\
+  XRef cap unit (fst (step false x o)) (fst (flat_step cap unit y o)).
 Proof.
-  intros [I Hc Hu Hcon] W. destruct o as [a n|a d| |k|c u]; cbn [step flat_step wf_op] in *.
+  destruct x as [st sv]. destruct y as [l sl]. intros [[I Hc Hu Hcon] Hsv] W. cbn [fst snd] in *.
+  assert (R0 : Ref cap unit st l) by (constructor; auto).
+  destruct o as [a n|a d| |k|c u| |]; cbn [step flat_step wf_op] in *.
   - destruct W as [Wa Wn]. destruct (cap <? a + n) eqn:E.
-    + rewrite read_err by lia. cbn [fst snd proj]. split; [reflexivity|]. constructor; auto.
+    + rewrite read_err by lia. cbn [fst snd proj]. split; [reflexivity|]. split; assumption.
     + destruct (read_ok st a n I ltac:(lia)) as [st' [R [I' [[Sc Su] C']]]]. rewrite R. cbn [fst snd proj].
       split.
       * f_equal. f_equal. apply map_ext. exact Hcon.
-      * constructor; auto; try congruence; try (intro x; rewrite C'; apply Hcon).
+      * split; [cbn [fst snd]|exact Hsv]. constructor; auto; try congruence; try (intro z; rewrite C'; apply Hcon).
   - destruct W as [Wa Wn]. destruct (cap <? a + lenN d) eqn:E.
-    + rewrite write_err by lia. cbn [fst snd proj]. split; [reflexivity|]. constructor; auto.
+    + rewrite write_err by lia. cbn [fst snd proj]. split; [reflexivity|]. split; assumption.
     + destruct (write_ok st a d I ltac:(lia)) as [st' [R [I' [[Sc Su] C']]]]. rewrite R. cbn [fst snd proj].
-      split; [reflexivity|]. constructor; auto; try congruence;
-        try (intro x; rewrite C', flat_get_cons; unfold written; rewrite Hcon; reflexivity).
+      split; [reflexivity|]. split; [cbn [fst snd]|exact Hsv]. constructor; auto; try congruence;
+        try (intro z; rewrite C', flat_get_cons; unfold written; rewrite Hcon; reflexivity).
   - assert (Sh : same_shape (new_storage (s_cap st) (s_unit st)) st) by (split; reflexivity).
     destruct (load_save st _ I Sh) as [st' [L [I' [[Sc Su] M]]]]. rewrite L. cbn [fst snd proj].
-    split; [reflexivity|]. constructor; auto; try congruence;
-      try (intro x; rewrite (contents_meq st' st Su M); apply Hcon).
-  - rewrite load_trunc; [cbn [fst snd proj]; split; [reflexivity|constructor; auto]|exact I|].
+    rewrite (save_meq st st' I I' (conj Sc Su) M).
+    assert (listN_eqb (save st) (save st) = true) as -> by (apply listN_eqb_eq; reflexivity).
+    split; [reflexivity|]. split; [cbn [fst snd]|exact Hsv]. constructor; auto; try congruence;
+      try (intro z; rewrite (contents_meq st' st Su M); apply Hcon).
+  - rewrite load_trunc; [cbn [fst snd proj]; split; [reflexivity|split; assumption]|exact I|].
     pose proof (save_length_pos st) as L.
     assert (k mod lenN (save st) < lenN (save st)) by (apply N.mod_lt; unfold lenN; lia).
     unfold lenN in *. lia.
@@ -132,28 +144,45 @@ Proof.
       rewrite <- save_header.
       assert (Sh : same_shape st st) by (split; reflexivity).
       destruct (load_save st st I Sh) as [st' [L [I' [[Sc Su] M]]]]. rewrite L. cbn [fst snd proj].
-      split; [reflexivity|]. constructor; auto; try congruence;
-        try (intro x; rewrite (contents_meq st' st Su M); apply Hcon).
+      split; [reflexivity|]. split; [cbn [fst snd]|exact Hsv]. constructor; auto; try congruence;
+        try (intro z; rewrite (contents_meq st' st Su M); apply Hcon).
     + rewrite load_other_shape; auto; [|rewrite Hc, Hu; exact E].
-      cbn [fst snd proj]. split; [reflexivity|constructor; auto].
+      cbn [fst snd proj]. split; [reflexivity|split; assumption].
+  - cbn [fst snd proj]. split; [reflexivity|]. split; [exact R0|]. cbn [snd]. exists st. split; [exact R0|reflexivity].
+  - destruct sv as [s|]; destruct sl as [l0|]; try contradiction.
+    + destruct Hsv as [st0 [[I0 Hc0 Hu0 Hcon0] ->]].
+      assert (Sh : same_shape st st0) by (split; congruence).
+      destruct (load_save st0 st I0 Sh) as [st' [L [I' [[Sc Su] M]]]]. rewrite L. cbn [fst snd proj].
+      split; [reflexivity|]. split.
+      * cbn [fst snd]. constructor; auto; try congruence. intro z. rewrite (contents_meq st' st0 Su M). apply Hcon0.
+      * cbn [snd]. exists st0. split; [constructor; auto|reflexivity].
+    + cbn [fst snd proj]. split; [reflexivity|]. split; [exact R0|exact Logic.I].
 Qed.
 
-Lemma run_refines cap unit : forall ops st l, Ref cap unit st l -> Forall wf_op ops ->
-  map proj (snd (run false st ops)) = map Some (snd (run_flat cap unit l ops)) /\
-  Ref cap unit (fst (run false st ops)) (fst (run_flat cap unit l ops)).
+Lemma run_refines cap unit : forall ops x y, XRef cap unit x y -> Forall wf_op ops ->
+  map proj (snd (runx false x ops)) = map Some (snd (runx_flat cap unit y ops)) /\
+  XRef cap unit (fst (runx false x ops)) (fst (runx_flat cap unit y ops)).
 Proof.
-  induction ops as [|o r IH]; intros st l R W; cbn [run run_flat].
+  induction ops as [|o r IH]; intros x y R W; cbn [runx runx_flat].
   - cbn. split; [reflexivity|exact R].
   - inversion W as [|? ? Wo Wr]; subst.
-    destruct (step_refines cap unit st l o R Wo) as [P R1].
-    destruct (step false st o) as [st1 b]. destruct (flat_step cap unit l o) as [l1 fb].
-    cbn [fst snd] in *. destruct (IH st1 l1 R1 Wr) as [P2 R2].
-    destruct (run false st1 r) as [st2 bs]. destruct (run_flat cap unit l1 r) as [l2 fbs].
+    destruct (step_refines cap unit x y o R Wo) as [P R1].
+    destruct (step false x o) as [x1 b]. destruct (flat_step cap unit y o) as [y1 fb].
+    cbn [fst snd] in *. destruct (IH x1 y1 R1 Wr) as [P2 R2].
+    destruct (runx false x1 r) as [x2 bs]. destruct (runx_flat cap unit y1 r) as [y2 fbs].
     cbn [fst snd map] in *. split; [congruence|exact R2].
 Qed.
 
 Lemma ref_new cap unit : 0 < unit -> unit < two64 -> cap < two64 ->
-  Ref cap unit (new_storage cap unit) [].
+  XRef cap unit (new_storage cap unit, None) ([], None).
 Proof.
-  intros. constructor; auto using inv_new.
+  intros. split; [|exact Logic.I]. cbn [fst]. constructor; auto using inv_new.
 Qed.
+
+Lemma run_eq old st ops :
+  run old st ops = (fst (fst (runx old (st, None) ops)), snd (runx old (st, None) ops)).
+Proof. unfold run. destruct (runx old (st, None) ops) as [[a b] c]. reflexivity. Qed.
+
+Lemma run_flat_eq cap unit l ops :
+  run_flat cap unit l ops = (fst (fst (runx_flat cap unit (l, None) ops)), snd (runx_flat cap unit (l, None) ops)).
+Proof. unfold run_flat. destruct (runx_flat cap unit (l, None) ops) as [[a b] c]. reflexivity. Qed.
